@@ -29,7 +29,7 @@ func init() {
 		explain: "Decided on source constants and the SSA program: (P16-lex = P01-lex) the literal shapes accepted for dates, times and durations are exactly the specification's; (P16-order) a range is rejected exactly when its end is not after-or-equal its start, and time comparison reads both midnight offsets (day shift included) with >= / ==; " +
 			"(P16-closed) date, time, duration, range and open-range values are only constructed inside their validating constructors, after the validity test; (P16-offsets = P02-range) midnight offsets are 60h+m-1440 / 60h+m / 60h+m+1440 by shift and a range lasts end minus start; (P16-ampm) the 12-hour tables of reading and printing are mutually inverse on the hour classes {0, 1-11, 12, 13-23}; (P16-plus) Time.Plus builds its result from the shifted offset's quotient and remainder by 60. " +
 			"Not covered: Gregorian validity (civil), ToString formats in general, exhaustive value round trips.",
-		rules: []ruleFn{ruleP01Lex, ruleP01GroupGuards, ruleP16DateStrict, ruleP16DurationParts, ruleP16Order, ruleP16Closed, ruleP02Range, ruleP16AmPm, ruleP16Plus, ruleP16Fold},
+		rules: []ruleFn{ruleP01Lex, ruleP01GroupGuards, ruleP16DateStrict, ruleP16DateSeparators, ruleP16DurationParts, ruleP16Order, ruleP16Closed, ruleP02Range, ruleP16AmPm, ruleP16Plus, ruleP16Fold},
 		trusted: []string{"cloud.google.com/go/civil validates dates and times"},
 	})
 }
